@@ -145,6 +145,45 @@ package consul
 //@ ensures[reports-the-object] id == r.remote[i].ID && modIndex == r.remote[i].ModifyIndex && eq(hash, r.remote[i].Hash)
 //@ modifies nothing
 
+// SortState orders both lists by ID in place (sort.Slice is used through its contract) and reports their lengths
+//@ func aclTokenReplicator.SortState
+//@ props C19
+//@ results nl, nr
+//@ requires r != nil
+//@ requires[objects-present] (forall i int :: 0 <= i && i < len(r.local) ==> r.local[i] != nil) && (forall i int :: 0 <= i && i < len(r.remote) ==> r.remote[i] != nil)
+//@ ensures[local-ordered] forall i int, j int :: 0 <= i && i < j && j < len(r.local) ==> !strLt(r.local[j].AccessorID, r.local[i].AccessorID)
+//@ ensures[remote-ordered] forall i int, j int :: 0 <= i && i < j && j < len(r.remote) ==> !strLt(r.remote[j].AccessorID, r.remote[i].AccessorID)
+//@ ensures[lengths] nl == len(r.local) && nr == len(r.remote) && len(r.local) == old(len(r.local)) && len(r.remote) == old(len(r.remote))
+//@ ensures[local-keeps-its-objects] forall i int :: 0 <= i && i < old(len(r.local)) ==> exists j int :: 0 <= j && j < len(r.local) && r.local[j] == old(r.local[i])
+//@ ensures[remote-keeps-its-objects] forall i int :: 0 <= i && i < old(len(r.remote)) ==> exists j int :: 0 <= j && j < len(r.remote) && r.remote[j] == old(r.remote[i])
+//@ modifies r.local, r.remote
+
+// SortState orders both lists by ID in place (sort.Slice is used through its contract) and reports their lengths
+//@ func aclPolicyReplicator.SortState
+//@ props C19
+//@ results nl, nr
+//@ requires r != nil
+//@ requires[objects-present] (forall i int :: 0 <= i && i < len(r.local) ==> r.local[i] != nil) && (forall i int :: 0 <= i && i < len(r.remote) ==> r.remote[i] != nil)
+//@ ensures[local-ordered] forall i int, j int :: 0 <= i && i < j && j < len(r.local) ==> !strLt(r.local[j].ID, r.local[i].ID)
+//@ ensures[remote-ordered] forall i int, j int :: 0 <= i && i < j && j < len(r.remote) ==> !strLt(r.remote[j].ID, r.remote[i].ID)
+//@ ensures[lengths] nl == len(r.local) && nr == len(r.remote) && len(r.local) == old(len(r.local)) && len(r.remote) == old(len(r.remote))
+//@ ensures[local-keeps-its-objects] forall i int :: 0 <= i && i < old(len(r.local)) ==> exists j int :: 0 <= j && j < len(r.local) && r.local[j] == old(r.local[i])
+//@ ensures[remote-keeps-its-objects] forall i int :: 0 <= i && i < old(len(r.remote)) ==> exists j int :: 0 <= j && j < len(r.remote) && r.remote[j] == old(r.remote[i])
+//@ modifies r.local, r.remote
+
+// SortState orders both lists by ID in place (sort.Slice is used through its contract) and reports their lengths
+//@ func aclRoleReplicator.SortState
+//@ props C19
+//@ results nl, nr
+//@ requires r != nil
+//@ requires[objects-present] (forall i int :: 0 <= i && i < len(r.local) ==> r.local[i] != nil) && (forall i int :: 0 <= i && i < len(r.remote) ==> r.remote[i] != nil)
+//@ ensures[local-ordered] forall i int, j int :: 0 <= i && i < j && j < len(r.local) ==> !strLt(r.local[j].ID, r.local[i].ID)
+//@ ensures[remote-ordered] forall i int, j int :: 0 <= i && i < j && j < len(r.remote) ==> !strLt(r.remote[j].ID, r.remote[i].ID)
+//@ ensures[lengths] nl == len(r.local) && nr == len(r.remote) && len(r.local) == old(len(r.local)) && len(r.remote) == old(len(r.remote))
+//@ ensures[local-keeps-its-objects] forall i int :: 0 <= i && i < old(len(r.local)) ==> exists j int :: 0 <= j && j < len(r.local) && r.local[j] == old(r.local[i])
+//@ ensures[remote-keeps-its-objects] forall i int :: 0 <= i && i < old(len(r.remote)) ==> exists j int :: 0 <= j && j < len(r.remote) && r.remote[j] == old(r.remote[i])
+//@ modifies r.local, r.remote
+
 // ---- C19: one replication round (config entries)
 
 //@ file config_replication.go
